@@ -29,6 +29,7 @@ type Inst struct {
 	GoneAt   time.Time // a terminating instance leaves Describe output at this instant
 	Fleet    bool
 	Owner    string // world group
+	NodeName string // name of the Node object this instance registers as (private-IP style, recycled)
 }
 
 type ASG struct {
